@@ -119,39 +119,56 @@ def nibbleAt (flags : Bytes) (i : Nat) : Nat :=
   let b := (flags.getD (i / 2) 0).toNat
   if i % 2 = 0 then b % 16 else b / 16
 
-/-- read references `i, i+1, … < n` -/
-def readRefs (flags : Bytes) (long : Bool) : Nat → Nat → PCache → Refs → Bytes → Option (Refs × PCache × Bytes)
-  | 0, _, pc, acc, bs => some (acc.reverse, pc, bs)
-  | k+1, i, pc, acc, bs =>
+/-- a cache slot: (segment index, internal index) -/
+abbrev Slot := Nat × Nat
+
+/-- what reading `N, flags, refs…` gives -/
+inductive HdrRead where
+  /-- a well-formed header: the references by position, the cache after it, the bytes of the terms, the slots its
+  new-entry references wrote, and whether a reference without text named a slot we can no longer vouch for -/
+  | ok (refs : Refs) (pc : PCache) (rest : Bytes) (wrote : List Slot) (doubtful : Bool)
+  /-- not a well-formed header. The protocol does not say what a receiver that goes on afterwards has done to its cache:
+  the slots of the new-entry references that stand before the point of failure (`wrote`) may or may not have been
+  written -/
+  | bad (wrote : List Slot)
+
+/-- read references `i, i+1, … < n`. `taint` = slots whose content the protocol no longer determines (see `HdrRead.bad`):
+a new entry makes its slot determined again, a reference without text to such a slot makes the whole message `doubtful`
+(it is read on with whatever we hold for the slot, so that the layout of the rest of the header is still checked) -/
+def readRefs (flags : Bytes) (long : Bool) (taint : List Slot) :
+    Nat → Nat → PCache → Refs → List Slot → Bool → Bytes → HdrRead
+  | 0, _, pc, acc, wrote, dbt, bs => .ok acc.reverse pc bs wrote dbt
+  | k+1, i, pc, acc, wrote, dbt, bs =>
     match rdN 1 bs with
-    | none => none
+    | none => .bad wrote
     | some (idx, r) =>
       let nib := nibbleAt flags i
       let seg := nib % 8
       if nib / 8 = 1 then
         match rdN (if long then 2 else 1) r with
-        | none => none
+        | none => .bad wrote
         | some (len, r1) =>
           match takeN len r1 with
-          | none => none
+          | none => .bad wrote
           | some (txt, r2) =>
             match utf8Decode txt with
-            | none => none
-            | some chars => readRefs flags long k (i + 1) (((seg, idx), chars) :: pc) (chars :: acc) r2
+            | none => .bad wrote
+            | some chars => readRefs flags long taint k (i + 1) (((seg, idx), chars) :: pc) (chars :: acc) ((seg, idx) :: wrote) dbt r2
       else
+        let known := !taint.contains (seg, idx) || wrote.contains (seg, idx)
         match pc.lookup (seg, idx) with
-        | none => none
-        | some chars => readRefs flags long k (i + 1) pc (chars :: acc) r
+        | none => if known then .bad wrote else readRefs flags long taint k (i + 1) pc ([] :: acc) wrote true r
+        | some chars => readRefs flags long taint k (i + 1) pc (chars :: acc) wrote (dbt || !known) r
 
-/-- read `N, flags, refs…`; `none` = not a well-formed header -/
-def readHeader (pc : PCache) (bs : Bytes) : Option (Refs × PCache × Bytes) :=
+/-- read `N, flags, refs…` -/
+def readHeader (pc : PCache) (taint : List Slot) (bs : Bytes) : HdrRead :=
   match rdN 1 bs with
-  | none => none
+  | none => .bad []
   | some (n, r) =>
-    if n = 0 then some ([], pc, r) else
+    if n = 0 then .ok [] pc r [] false else
     match takeN (n / 2 + 1) r with
-    | none => none
-    | some (flags, r1) => readRefs flags (nibbleAt flags n % 2 = 1) n 0 pc [] r1
+    | none => .bad []
+    | some (flags, r1) => readRefs flags (nibbleAt flags n % 2 = 1) taint n 0 pc [] [] false r1
 
 /-- what the receiving API has to return for one frame -/
 inductive Expect where
@@ -213,6 +230,8 @@ structure Pending where
 
 structure RState where
   cache : PCache := []
+  /-- slots a malformed distribution header may or may not have written (`HdrRead.bad`) -/
+  taint : List Slot := []
   pending : List Pending := []
 
 def RState.find (s : RState) (q : Nat) : Option Pending := s.pending.find? (·.seq == q)
@@ -224,12 +243,16 @@ def Pending.assemble (p : Pending) : Option Bytes :=
   let ps := ids.map fun k => (p.pieces.find? (·.1 == k)).map (·.2)
   if ps.all Option.isSome then some (p.first ++ (ps.filterMap id).flatten) else none
 
-/-- header-mode body (`N, flags, refs…, terms`): read the header into the cache, then the terms -/
+/-- header-mode body (`N, flags, refs…, terms`): read the header into the cache, then the terms.
+A malformed header is an error for this frame, and the slots it may have written are no longer ours to judge until a later
+header writes them anew; a message that refers to such a slot is `unspecified` (and then so are the slots it writes). -/
 def readHeaderBody (inflate : Bytes → Option (Bytes × Nat)) (s : RState) (body : Bytes) : RState × Expect :=
-  match readHeader s.cache body with
-  | none => (s, .err)
-  | some (refs, pc, rest) =>
-    ({ s with cache := pc }, readTerms { inflate := inflate, refs := refs } false rest)
+  match readHeader s.cache s.taint body with
+  | .bad wrote => ({ s with taint := wrote ++ s.taint }, .err)
+  | .ok refs pc rest wrote doubtful =>
+    if doubtful then ({ s with cache := pc, taint := wrote ++ s.taint }, .unspecified)
+    else ({ s with cache := pc, taint := s.taint.filter (fun k => !wrote.contains k) },
+      readTerms { inflate := inflate, refs := refs } false rest)
 
 /-- one frame at the reference receiver -/
 def readFrame (inflate : Bytes → Option (Bytes × Nat)) (s : RState) (f : Bytes) : RState × Expect :=
@@ -271,8 +294,8 @@ def readFrame (inflate : Bytes → Option (Bytes × Nat)) (s : RState) (f : Byte
           else ({ s.drop seq with pending := p' :: (s.drop seq).pending }, .nothing)
   | _ => (s, .err)
 
-/-- the expectations for a list of frames. Once something `unspecified` was seen in header mode the sequence ids and
-cache slots it touched are no longer ours to judge; the caller decides how to treat that (see Drv/C06.lean). -/
+/-- the expectations for a list of frames. Sequence ids that carried something `unspecified` are dropped, cache slots a
+malformed header may have written are tracked in `RState.taint`. -/
 def readAll (inflate : Bytes → Option (Bytes × Nat)) : RState → List Bytes → List Expect
   | _, [] => []
   | s, f :: fs => (readFrame inflate s f).2 :: readAll inflate (readFrame inflate s f).1 fs
